@@ -1,4 +1,5 @@
 import Percival.Proofs.EventsC05Loop
+import Percival.Proofs.TimerQueue
 /-!
 # C05 — event loop: dispatch order, progress and status propagation
 
@@ -118,5 +119,18 @@ example :
     -- unfired registrations stay
     C05.admissible [.op (.regNet 1 3 .rd) .ok, .op (.cancelNet 3 .rd) .enoent] = false := by
   decide
+
+
+/-! ## closed form: the timer-queue contract is discharged by the C13 theorems -/
+
+open Percival.Proofs.TQ in
+/-- the six timer-queue statements the event-loop proofs rely on, as proved for `Model.TimerQueue` in C13 -/
+def tqContract : TQContract :=
+  { TQInv := TQInv, empty := tq_inv_empty, add := tq_add, delete := tq_delete, increase := tq_increase,
+    getmin := tq_getmin, getptr := tq_getptr }
+
+/-- `run_admissible_C05` with no hypothesis left about the timer queue -/
+theorem run_admissible_C05_closed (fuel : Nat) (prog : List Top) (hok : ProgOk prog) : C05.admissible (run fuel prog) = true :=
+  run_admissible_C05 tqContract fuel prog hok
 
 end Percival.C05
